@@ -151,6 +151,21 @@ func c12assert(c *an.Ctx) {
 					fail("the asserted expression " + an.Str(ta.X) + " cannot be followed")
 					return true
 				}
+				// facts about <e>.Type() are looked up by their key (they may have been copied to a helper's parameter,
+				// for which no `.Type()` expression exists in the source)
+				tk := ek + ".Type()"
+				factOf := func(k string) (val, known bool) {
+					a, b := k, tk
+					if a > b {
+						a, b = b, a
+					}
+					for fk, fv := range st.Facts {
+						if an.PlainKey(fk) == an.PlainKey(a+" == "+b) {
+							return fv, true
+						}
+					}
+					return false, false
+				}
 				var probe *ast.CallExpr
 				for _, tc := range typeCalls {
 					if k, ok := x.Key(an.Unparen(tc.Fun).(*ast.SelectorExpr).X); ok && k == ek {
@@ -158,14 +173,22 @@ func c12assert(c *an.Ctx) {
 						break
 					}
 				}
-				if probe == nil {
-					fail("nothing tests " + an.Str(ta.X) + ".Type() before it is asserted to *" + tname)
-					return true
+				knownType := ""
+				for rk, cur := range st.Regs {
+					if an.PlainKey(rk) == an.PlainKey("eq:"+tk) {
+						knownType = byExact[cur]
+					}
 				}
-				pk, _ := x.Key(probe)
-				if cur, has := st.Regs["eq:"+pk]; has {
-					if !constsOf[tname][byExact[cur]] {
-						fail(an.Str(ta.X) + " is known to be a " + byExact[cur] + " where it is asserted to *" + tname)
+				if knownType == "" {
+					for k := range exact {
+						if v, known := factOf(k); known && v {
+							knownType = k
+						}
+					}
+				}
+				if knownType != "" {
+					if !constsOf[tname][knownType] {
+						fail(an.Str(ta.X) + " is known to be a " + knownType + " where it is asserted to *" + tname)
 					}
 					return true
 				}
@@ -180,10 +203,16 @@ func c12assert(c *an.Ctx) {
 					if constsOf[tname][k] {
 						continue
 					}
-					pr := &ast.BinaryExpr{X: probe, Op: token.EQL, Y: &ast.Ident{Name: k}}
-					if v, known := x.Truth(pr, st); !(known && !v) {
-						open = append(open, k)
+					if v, known := factOf(k); known && !v {
+						continue
 					}
+					if probe != nil {
+						pr := &ast.BinaryExpr{X: probe, Op: token.EQL, Y: &ast.Ident{Name: k}}
+						if v, known := x.Truth(pr, st); known && !v {
+							continue
+						}
+					}
+					open = append(open, k)
 				}
 				if len(open) > 0 {
 					sort.Strings(open)
@@ -242,35 +271,88 @@ func c12universe(p *an.Prog, f *an.Fn, e ast.Expr, admitted map[string]bool, dec
 		return nil, "the parser's set of assignment targets could not be derived"
 	}
 	info := f.Info()
+	var isLeftList func(g *an.Fn, e ast.Expr, depth int) bool
+	isLeftList = func(g *an.Fn, e ast.Expr, depth int) bool {
+		if p.FieldKey(g.Info(), e) == "SetNode.Left" {
+			return true
+		}
+		// a parameter to which every caller hands the list
+		id, ok := an.Unparen(e).(*ast.Ident)
+		if !ok || depth > 3 {
+			return false
+		}
+		owner := p.OwnerFn(id.Pos())
+		if owner == nil {
+			owner = g
+		}
+		idx, isParam := an.IsParam(owner, an.ObjOf(g.Info(), id))
+		if !isParam || owner.Obj == nil || len(an.LocalDefs(owner, an.ObjOf(g.Info(), id))) > 0 {
+			return false
+		}
+		sites := p.AllCalls(an.FuncName(owner.Obj))
+		if len(sites) == 0 {
+			return false
+		}
+		for _, s := range sites {
+			if idx >= len(s.Call.Args) || !isLeftList(s.Fn, s.Call.Args[idx], depth+1) {
+				return false
+			}
+		}
+		return true
+	}
+	isLeftElemIn := func(g *an.Fn, e ast.Expr) bool {
+		ix, ok := an.Unparen(e).(*ast.IndexExpr)
+		return ok && isLeftList(g, ix.X, 0)
+	}
 	isLeftElem := func(info *types.Info, e ast.Expr) bool {
 		ix, ok := an.Unparen(e).(*ast.IndexExpr)
 		return ok && p.FieldKey(info, ix.X) == "SetNode.Left"
 	}
 	e = an.Unparen(e)
-	if isLeftElem(info, e) {
+	if isLeftElem(info, e) || isLeftElemIn(f, e) {
 		// inside a function that handles declarations only?
 		if declOK && c12declOnly(p, f) {
 			return map[string]bool{"NodeIdentifier": true, "NodeUnderscore": true}, "declaration targets are identifiers or '_' (parser obligation let-targets)"
 		}
 		return admitted, "assignment targets admitted by the parser"
 	}
-	if id, ok := e.(*ast.Ident); ok {
+	// a parameter: every caller passes an assignment target (directly, or again as its own parameter)
+	var isTarget func(g *an.Fn, e ast.Expr, depth int) bool
+	isTarget = func(g *an.Fn, e ast.Expr, depth int) bool {
+		if isLeftElem(g.Info(), e) || isLeftElemIn(g, e) {
+			return true
+		}
+		id, ok := an.Unparen(e).(*ast.Ident)
+		if !ok || depth > 3 {
+			return false
+		}
 		owner := p.OwnerFn(id.Pos())
 		if owner == nil {
-			owner = f
+			owner = g
 		}
-		if idx, isParam := an.IsParam(owner, an.ObjOf(info, id)); isParam && owner.Obj != nil {
-			sites := p.AllCalls(an.FuncName(owner.Obj))
-			if len(sites) == 0 {
-				return nil, "no call sites"
-			}
-			for _, s := range sites {
-				if idx >= len(s.Call.Args) || !isLeftElem(s.Fn.Info(), s.Call.Args[idx]) {
-					return nil, "a caller passes something other than an assignment target"
-				}
-			}
-			return admitted, "assignment targets admitted by the parser"
+		idx, isParam := an.IsParam(owner, an.ObjOf(g.Info(), id))
+		if !isParam || owner.Obj == nil {
+			return false
 		}
+		sites := p.AllCalls(an.FuncName(owner.Obj))
+		if len(sites) == 0 {
+			return false
+		}
+		for _, s := range sites {
+			if idx >= len(s.Call.Args) || !isTarget(s.Fn, s.Call.Args[idx], depth+1) {
+				return false
+			}
+		}
+		return true
+	}
+	if _, ok := e.(*ast.Ident); ok {
+		if !isTarget(f, e, 0) {
+			return nil, "a caller passes something other than an assignment target"
+		}
+		if declOK && c12declOnly(p, f) {
+			return map[string]bool{"NodeIdentifier": true, "NodeUnderscore": true}, "declaration targets are identifiers or '_' (parser obligation let-targets)"
+		}
+		return admitted, "assignment targets admitted by the parser"
 	}
 	return nil, "no type test"
 }
@@ -320,7 +402,35 @@ func c12declOnly(p *an.Prog, f *an.Fn) bool {
 			}
 		}
 		if !ok {
-			return false
+			// not written as a plain test of the field: decide on the caller's paths
+			var lets []ast.Expr
+			an.InspectOwn(s.Fn, func(n ast.Node) bool {
+				if sel, isSel := n.(*ast.SelectorExpr); isSel && p.FieldKey(info, sel) == "SetNode.Let" {
+					lets = append(lets, sel)
+				}
+				return true
+			})
+			reached, always := false, true
+			site := s
+			x := p.NewExplorer(s.Fn, an.Hooks{Call: func(x *an.Explorer, call *ast.CallExpr, st *an.State) {
+				if call != site.Call {
+					return
+				}
+				reached = true
+				known := false
+				for _, l := range lets {
+					if v, k := x.Truth(l, st); k && v {
+						known = true
+					}
+				}
+				if !known {
+					always = false
+				}
+			}})
+			x.Run(nil)
+			if !reached || !always || x.Undecided != "" {
+				return false
+			}
 		}
 	}
 	return true
